@@ -322,7 +322,8 @@ theorem C05_history_train (evs : List Ev) (p v ord : Nat) (sts : List (Nat × By
 
 /-- **C05_history_publish**: after any history, a successful publish of package `(name, v)` through project key `dp`
 (i) has `dp = name` and `v` greater than every listed release of `name`, (ii) lists the new release with exactly
-that package at its place, and (iii) every path outside the new release directory looks byte-for-byte as before. -/
+that package at its place (a file with the package bytes, or a directory whose members — distinct names — hold their
+bytes), and (iii) every path outside the new release directory looks byte-for-byte as before. -/
 theorem C05_history_publish (evs : List Ev) (dp name v : Nat) (pkg : Pkg)
     (h : (exec Impl.repaired (play Impl.repaired Fs.empty evs) (.publish dp name v pkg)).err = none) :
     let fs := play Impl.repaired Fs.empty evs
@@ -330,6 +331,8 @@ theorem C05_history_publish (evs : List Ev) (dp name v : Nat) (pkg : Pkg)
     dp = name ∧ (∀ w ∈ releasesOf fs name, w < v)
     ∧ relListed fs' name v = true
     ∧ pkg.placedAs (vis fs' (packageP name v))
+    ∧ (∀ ms, pkg = .dir ms → (ms.map (·.1)).Nodup → ∀ m ∈ ms,
+        vis fs' (packageP name v ++ [.member m.1]) = some (.file m.2))
     ∧ (∀ key, ¬ (releaseP name v <+: key) → vis fs' key = vis fs key) :=
   publish_ok _ (history_good evs) dp name v pkg h
 
